@@ -144,10 +144,11 @@ public:
   String& prepend(const String& str)
   {
     String copy(*this);
-    usize newLen = str.data->len + copy.data->len;
+    const Data* strData = str.data; // str may be *this: detach() replaces this->data, the old data stays alive through copy
+    usize newLen = strData->len + copy.data->len;
     detach(0, newLen);
-    Memory::copy((char*)data->str, str.data->str, str.data->len * sizeof(char));
-    Memory::copy((char*)data->str + str.data->len, copy.data->str, copy.data->len * sizeof(char));
+    Memory::copy((char*)data->str, strData->str, strData->len * sizeof(char));
+    Memory::copy((char*)data->str + strData->len, copy.data->str, copy.data->len * sizeof(char));
     ((char*)data->str)[data->len = newLen] = '\0';
     return *this;
   }
